@@ -618,6 +618,12 @@ func (w *World) cursorMethodsReached(fn *ssa.Function) map[string]bool {
 // given direction (dir>0 forward, dir<0 backward, 0 any), directly or through a callee whose every
 // return is. Returns the offending description otherwise.
 func (w *World) returnsNormalised(fn *ssa.Function, dir int, depth int) (bool, string) {
+	return w.returnsNormalisedWith(fn, dir, depth, nil)
+}
+
+// returnsNormalisedWith: as returnsNormalised, with the function values bound to fn's parameters at the call under
+// examination (a loop driver that applies the clean-up function it was given).
+func (w *World) returnsNormalisedWith(fn *ssa.Function, dir int, depth int, bound map[*ssa.Parameter]*ssa.Function) (bool, string) {
 	ef := w.ExecFacts()
 	if depth > 4 {
 		return false, "call chain too deep"
@@ -647,6 +653,11 @@ func (w *World) returnsNormalised(fn *ssa.Function, dir int, depth int) (bool, s
 				continue
 			}
 			sc := staticCallee(c)
+			if sc == nil {
+				if p, isParam := c.Call.Value.(*ssa.Parameter); isParam && bound[p] != nil {
+					sc = bound[p]
+				}
+			}
 			if nn := ef.Normalisers[sc]; nn != nil {
 				if dir > 0 && !nn.Forward {
 					ok, why = false, "normalised in reverse document order by "+sc.Name()
@@ -657,7 +668,26 @@ func (w *World) returnsNormalised(fn *ssa.Function, dir int, depth int) (bool, s
 				continue
 			}
 			if sc != nil && fnPkgKey(sc) == "exec" {
-				if ok2, why2 := w.returnsNormalised(sc, dir, depth+1); !ok2 {
+				// function values handed to the callee
+				b2 := map[*ssa.Parameter]*ssa.Function{}
+				for i, a := range c.Call.Args {
+					if i >= len(sc.Params) {
+						break
+					}
+					switch x := stripConv(a).(type) {
+					case *ssa.Function:
+						b2[sc.Params[i]] = x
+					case *ssa.MakeClosure:
+						if f2, ok := x.Fn.(*ssa.Function); ok {
+							b2[sc.Params[i]] = f2
+						}
+					case *ssa.Parameter:
+						if bound[x] != nil {
+							b2[sc.Params[i]] = bound[x]
+						}
+					}
+				}
+				if ok2, why2 := w.returnsNormalisedWith(sc, dir, depth+1, b2); !ok2 {
 					ok, why = false, why2
 				}
 				continue
